@@ -4,7 +4,7 @@
 
 package main
 
-//@ macro inList(l, s) = exists(x_, 0, len(l), l[x_] == s)
+//@ macro inList(l, s) = inListS(l, s)
 //@ macro noDup(l) = forall(x_, 0, len(l), forall(y_, 0, x_, l[y_] != l[x_]))
 
 // blacklist / allowList are flag values: arbitrary but fixed during a run
@@ -35,3 +35,96 @@ package main
 //@     invariant @own own(added)
 //@   loop 3 binder vis
 //@     invariant @out own(out) && forallk(s, m, vis[s] == inList(out, s)) && noDup(out)
+
+// ghost model of the scanner used by disasm (shared names, see the disasm contract file)
+//@ global lines ghost:(Array Int String)
+//@ global nlines ghost:Int
+//@ global pos ghost:Int
+//@ global scanErr ghost:I.error
+
+// Helpers of main that C18 does not depend on beyond these facts (contracts assumed, bodies not verified here):
+// getBinaryArch returns one of the three Info values; their tables are injective (C12, ground-verified).
+//@ macro tableInjective(ai) = forallk(a_, ai.SyscallNumbers, forallk(b_, ai.SyscallNumbers, has(ai.SyscallNumbers, a_) && has(ai.SyscallNumbers, b_) && ai.SyscallNumbers[a_] == ai.SyscallNumbers[b_] ==> a_ == b_))
+//@ func getBinaryArch(binary string) (*arch.Info, string, error)
+//@   trusted
+//@   ensures result2 == nil ==> result0 != nil && tableInjective(result0) && (result0 == arch.I386 || result0 == arch.ARM || result0 == arch.X86_64)
+//@ func hashBinary(binary string) (string, error)
+//@   trusted
+//@ func openOutput(goarch string) (io.WriteCloser, error)
+//@   trusted
+//@ func writeGoTemplate(w io.Writer, goarch string, syscalls []string) error
+//@   trusted
+//@ func writeDebugYAML(w io.Writer, syscalls []disasm.Syscall) error
+//@   trusted
+
+// ---- C17: the cache of disassemblies (ghost file system, spec/fs.spec) ----
+//@ global buf ghost:String
+//@ global disk ghost:String
+//@ global tmp ghost:String
+//@ global written ghost:String
+//@ global dump ghost:String
+//@ global wfile ghost:String
+//@ global cachePath ghost:String
+//@ global ran ghost:Bool
+
+// crash invariant: a cache file that starts with this binary's hash is the complete dump of this binary
+//@ macro full(hash) = (hash + "\n" + ghost.dump)
+//@ macro CI(d, hash) = (strlen(d) >= 64 && substr(d, 0, 64) == hash ==> d == full(hash))
+
+//@ func cachedDumpFile(binary string) (string, error)
+//@   trusted
+//@   ensures result1 == nil ==> result0 == ghost.cachePath
+
+//@ func writeObjdump(binary, hash, file string) error   properties C17
+//@   modifies ghost.disk, ghost.tmp, ghost.buf, ghost.wfile, ghost.written, ghost.ran
+//@   ghost ghost.wfile = f.name at after assign out#1
+//@   crash_invariant @disk_untouched {C17} file == ghost.cachePath + ".tmp" ==> ghost.disk == old(ghost.disk)
+//@   ensures @disk_untouched {C17} file == ghost.cachePath + ".tmp" ==> ghost.disk == old(ghost.disk)
+//@   ensures @complete {C17} file == ghost.cachePath + ".tmp" && result == nil ==> ghost.tmp == full(hash)
+//@   ensures @direct {C17} file == ghost.cachePath && result == nil ==> ghost.disk == full(hash)
+
+//@ func doObjdump(binary, hash string) (string, error)   properties C17
+// the crash invariant at entry is the induction hypothesis over the history of runs (every run re-establishes it: @ci)
+//@   requires @ci_at_entry {C17} CI(ghost.disk, hash)
+//@   modifies ghost.disk, ghost.tmp, ghost.buf, ghost.wfile, ghost.written, ghost.ran
+//@   crash_invariant @ci {C17} CI(ghost.disk, hash)
+//@   ensures @ci {C17} CI(ghost.disk, hash)
+//@   ensures @reuse_only_complete {C17} result1 == nil ==> result0 == ghost.cachePath && ghost.disk == full(hash)
+
+//@ macro sortedList(l) = forall(x_, 0, len(l), forall(y_, 0, x_, l[y_] <= l[x_]))
+//@ macro foundName(sc, s) = exists(x_, 0, len(sc), sc[x_].Name == s)
+
+//@ func writeProfileConfig(w io.Writer, syscalls []string) error   properties C18
+//@   ghost let cfg = config at before call yaml.Marshal#1
+//@   assert @emitted_policy {C18} cfg.Seccomp.DefaultAction == seccomp.ActionErrno && len(cfg.Seccomp.Syscalls) == 1 && cfg.Seccomp.Syscalls[0].Action == seccomp.ActionAllow && cfg.Seccomp.Syscalls[0].Names == syscalls && len(cfg.Seccomp.Syscalls[0].NamesWithCondtions) == 0 at before call yaml.Marshal#1
+
+//@ lemma appendOne(l []string, l2 []string, v string)
+//@   ensures len(l2) == len(l) + 1 && forall(i, 0, len(l), l2[i] == l[i]) && l2[len(l)] == v && len(l) >= 0 ==> forallk(s, "String", inList(l2, s) == (inList(l, s) || s == v)) && (noDup(l) && !inList(l, v) ==> noDup(l2))
+
+//@ macro tbl() = archInfo.SyscallNumbers
+//@ macro namesAre(l, sc) = forallk(s_, "String", inList(l, s_) == foundName(sc, s_))
+//@ macro afterBL(l, sc) = forallk(s_, "String", inList(l, s_) == (foundName(sc, s_) && !(len(blacklist) > 0 && inList(blacklist, s_))))
+//@ macro finalSet(l, sc) = forallk(s_, "String", inList(l, s_) == ((foundName(sc, s_) && !(len(blacklist) > 0 && inList(blacklist, s_))) || (len(allowList) > 0 && inList(allowList, s_) && has(archInfo.SyscallNames, s_))))
+
+//@ func main()   properties C18
+//@   requires ghost.pos == 0 && ghost.nlines >= 0
+//@   requires forallk(h, "String", CI(ghost.disk, h))
+//@   modifies ghost.pos, ghost.disk, ghost.tmp, ghost.buf, ghost.wfile, ghost.written, ghost.ran
+//@   hint @table {C18} forall(j, 0, len(syscalls), has(tbl(), syscalls[j].Num) && tbl()[syscalls[j].Num] == syscalls[j].Name) at before loop 1
+//@   hint @mtable {C18} forallk(n, m, has(m, n) ==> has(tbl(), n) && m[n].Name == tbl()[n] && foundName(syscalls, m[n].Name)) at after loop 1
+//@   hint @mall {C18} forall(j, 0, len(syscalls), has(m, syscalls[j].Num) && m[syscalls[j].Num].Name == syscalls[j].Name) at after loop 1
+//@   ghost let names0 = names at loop 2 body
+//@   use appendOne(names0, names, s.Name) at loop 2 end
+//@   hint @h1 {C18} namesAre(names, syscalls) && noDup(names) at after loop 2
+//@   hint @h2 {C18} afterBL(names, syscalls) && noDup(names) at after assign names#2
+//@   hint @h2b {C18} afterBL(names, syscalls) && noDup(names) at after assign size#1
+//@   hint @h3 {C18} finalSet(names, syscalls) && noDup(names) at before call sort.Strings#1
+//@   assert @profile {C18} sortedList(names) && noDup(names) && finalSet(names, syscalls) at before call openOutput#1
+//@   loop 1 binder k1
+//@     invariant @m nonnil(m) && forallk(n, m, has(m, n) == exists(j, 0, k1, syscalls[j].Num == n))
+//@     invariant @vals forallk(n, m, has(m, n) ==> exists(j, 0, k1, syscalls[j].Num == n && m[n] == syscalls[j]))
+//@   loop 2 binder vis
+//@     invariant @own own(names)
+//@     invariant @from forallk(x, "String", inList(names, x) ==> existsk(n, m, vis[n] && has(m, n) && m[n].Name == x))
+//@     invariant @to forallk(n, m, vis[n] ==> inList(names, m[n].Name))
+//@     invariant @nodup noDup(names)
